@@ -91,8 +91,12 @@ class _Opts:
     limit = -1
     taxon = "bacteria"
 
-    def __init__(self, allow_long: bool) -> None:
+    def __init__(self, allow_long: bool, reuse: bool = False, skip_sanitisation: bool = False,
+                 limit_to_record: str = "") -> None:
         self.allow_long_headers = allow_long
+        self.reuse_results = reuse
+        self.skip_sanitisation = skip_sanitisation
+        self.limit_to_record = limit_to_record
 
     def __iter__(self) -> Iterator[Any]:
         return iter(())
@@ -114,6 +118,7 @@ class C16(Property):
              ("antismash/common/secmet/record.py", "Record.__getattr__"),
              ("antismash/common/secmet/record.py", "Record.__setattr__"),
              ("antismash/common/secmet/record.py", "Record.get_genes_by_name"),
+             ("antismash/common/secmet/record.py", "Record.has_name"),
              ("antismash/common/secmet/record.py", "Record.get_cds_by_name"),
              ("antismash/common/secmet/features/feature.py", "Feature.overlaps_with"),
              ("antismash/common/secmet/features/gene.py", "Gene.__init__"),
@@ -180,7 +185,15 @@ class C16(Property):
             if rng.random() < 0.15:     # an `accession` annotation (shortened when > 16, whatever the setting)
                 rec.append(rng.choice([i, rand_id(rng), i.partition(".")[0]]))
             recs.append(rec)
-        return {"kind": "ids", "allow_long": rng.random() < 0.35, "recs": recs}
+        case: Dict[str, Any] = {"kind": "ids", "allow_long": rng.random() < 0.35, "recs": recs}
+        r = rng.random()
+        if r < 0.3:      # --limit-to-record: an input id, one of its rewritten forms, or nobody's id
+            src = rng.choice(ids)
+            case["limit"] = rng.choice([src, strip_illegal(src), src + "_0", src[:12] + "_0", src.partition(".")[0],
+                                        rng.choice(variants(rng, src, rng.randrange(1, n + 1))), "nobody"])
+        if rng.random() < 0.12:   # sanitisation switched off
+            case[rng.choice(["reuse", "skip_san"])] = True
+        return case
 
     def gen_exhaustion_ids_case(self, rng: random.Random) -> Dict[str, Any]:
         """record level: the `<12 chars>_<n>` fallback has to count past 999, i.e. the counter gains a digit
@@ -443,6 +456,8 @@ class C16(Property):
         name = type(exc).__name__
         if name == "AntismashInputError" and "record has no name" in msg:
             kind = "no-name"
+        elif name == "AntismashInputError" and "no sequences matched filter" in msg:
+            kind = "no-match"
         elif name == "SecmetInvalidInputError" and "same location" in msg:
             kind = "dup-location"
         elif name == "SecmetInvalidInputError" and "same name" in msg:
@@ -466,11 +481,15 @@ class C16(Property):
                     record.annotations["accession"] = rec[2]
                 records.append(record)
             try:
-                out = rp.pre_process_sequences(records, _Opts(case["allow_long"]), _NoGenefinding)
+                opts = _Opts(case["allow_long"], bool(case.get("reuse")), bool(case.get("skip_san")),
+                             case.get("limit") or "")
+                out = rp.pre_process_sequences(records, opts, _NoGenefinding)
             except Exception as exc:  # pylint: disable=broad-except
                 return self._map_err(exc)
             same = len(out) == len(records) and all(a is b for a, b in zip(out, records))
             return {"recs": [[r.id, r.name, r.original_id, r.annotations.get("accession")] for r in out],
+                    "skips": [bool(r.skip) for r in out],
+                    "answers": [bool(r.has_name(rec[0])) for r, rec in zip(out, case["recs"])],
                     "same_objects": same}
         if kind == "fix":
             record = Record(Seq("ACGT"), id=case["rid"], name=case["name"])
@@ -549,7 +568,9 @@ class C16(Property):
     def driver_line(self, case: Dict[str, Any], obs: Dict[str, Any]) -> Optional[Dict[str, Any]]:
         kind = case["kind"]
         if kind == "ids":
-            return {"kind": kind, "allow_long": case["allow_long"], "recs": case["recs"], "impl": obs.get("recs")}
+            return {"kind": kind, "allow_long": case["allow_long"], "recs": case["recs"], "impl": obs.get("recs"),
+                    "reuse": bool(case.get("reuse")), "skip_san": bool(case.get("skip_san")),
+                    "limit": case.get("limit") or ""}
         if kind == "fix":
             impl = None if "err" in obs else {"rec": obs["rec"][:3], "taken": obs["taken"]}
             return {"kind": kind, "allow_long": case["allow_long"], "rid": case["rid"], "name": case["name"],
@@ -575,6 +596,12 @@ class C16(Property):
         tags = [kind]
         spec_ok, detail, nontrivial = True, "", False
         if kind == "ids":
+            sanitised_run = not (case.get("reuse") or case.get("skip_san"))
+            limit = case.get("limit") or ""
+            if limit:
+                tags.append("limit-to-record")
+            if not sanitised_run:
+                tags.append("sanitisation-off")
             if "err" in obs:
                 corr = model.get("err") == obs["err"]
                 tags.append("rejected:" + obs["err"])
@@ -582,14 +609,28 @@ class C16(Property):
                     tags.append("thousand-records")
                 nontrivial = True
                 # rejecting is allowed only in the two documented ways
-                if obs["err"] not in ("RuntimeError", "no-name") or (case["allow_long"] and obs["err"] != "no-name"):
+                allowed = {"no-name"}
+                if sanitised_run and not case["allow_long"]:
+                    allowed.add("RuntimeError")
+                if limit:
+                    allowed.add("no-match")
+                if obs["err"] not in allowed:
                     spec_ok = False
                     detail = f"unexpected rejection {obs}"
             else:
-                corr = model.get("recs") == obs["recs"]
-                spec_ok = bool(spec and spec["ok"]) and obs["same_objects"]
+                corr = (model.get("recs") == obs["recs"] and model.get("skips") == obs["skips"]
+                        and model.get("answers") == obs["answers"])
+                if sanitised_run:
+                    spec_ok = bool(spec and spec["ok"]) and obs["same_objects"] and all(obs["answers"])
+                    if limit:   # distinct ids: the filter keeps exactly the one record carrying the target
+                        kept = [o[0] for o, skipped in zip(obs["recs"], obs["skips"]) if not skipped]
+                        spec_ok = spec_ok and kept == [limit]
+                else:           # identifiers exactly as read
+                    spec_ok = obs["same_objects"] and all(
+                        o[0] == r[0] and o[1] == r[1] and o[2] is None for o, r in zip(obs["recs"], case["recs"]))
                 if not spec_ok:
-                    detail = f"spec {spec} on implementation output {obs['recs']}"
+                    detail = (f"spec {spec} skips={obs['skips']} answers={obs['answers']} on implementation output "
+                              f"{obs['recs']}")
                 changed = sum(1 for r, o in zip(case["recs"], obs["recs"]) if r[0] != o[0])
                 nontrivial = changed > 0
                 tags.append("changed" if changed else "unchanged")
